@@ -106,11 +106,12 @@ def pybytesRepr (r : Bytes) (dquoted fullRepr : Bool) : Bytes :=
     (reprQuote r dquoted :: (r.flatMap (reprByte (reprQuote r dquoted) fullRepr) ++ [reprQuote r dquoted]))
 
 /-- the `full_repr` argument that `Bytes::to_formal_string` passes to `pybytes_repr`.
-    `false` in the code as it is — that is the C09 defect (a backslash is written unescaped).
-    The proposed repair (known_findings.json, C09-classic-backslash) passes `true`; all writer
-    definitions below take the flag so that the repaired writer is covered by the same theorems
-    (`Props/C09.classic_roundtrip_with_fix`) and the model is switched by changing this constant. -/
-def codeFullRepr : Bool := false
+    `true` since the /repo repair 1c2814c (a backslash is written as two backslashes); it was
+    `false` in the code as found — the C09 defect C09-classic-backslash (a backslash written
+    unescaped while `consume_quoted` reads it as an escape).  All writer definitions below take
+    the flag, so the unrepaired writer stays available (`…With false`) for the theorems that
+    document the former defect (`Props/C09.classic_roundtrip_unrepaired_*`). -/
+def codeFullRepr : Bool := true
 
 /-- `Bytes::to_formal_string` with the given `full_repr` -/
 def toFormalStringWith (fr : Bool) (b : Bytes) : Bytes := pybytesRepr b true fr
